@@ -70,6 +70,7 @@ def r1_funnel(run, w):
     if q in NON_EMITTING_FUNCS or fn.fi.module.name in NON_EMITTING_MODULES:
       continue
     fv = H.View(fn)
+    run = H.Guarded(run, fv, keep=KEEP)
     gw = [c for (n, c, nm) in fn.calls() if E.is_gateway_call(c, nm, fn) and
           fv.arg(c, 0) is not None and any(x is call for x in ast.walk(fv.res(fv.arg(c, 0))))]
     run.ob(R1, q, short(call), "a rename action constructed outside DocActions is handed straight "
@@ -86,6 +87,7 @@ def r1_funnel(run, w):
   for name, field in (("RenameColumn", "colId"), ("RenameTable", "tableId")):
     fn = w.fn("useractions.UserActions." + name)
     uv = H.View(fn)
+    run = H.Guarded(run, uv, keep=KEEP)
     ps = fn.fi.params()
     direct = [c for (n, c, nm) in fn.calls() if E.is_gateway_call(c, nm, fn)]
     fwd = [c for (n, c, nm) in fn.calls() if endswith(nm, "self._docmodel.update") and
@@ -97,6 +99,9 @@ def r1_funnel(run, w):
 
 
 def _r1_site(run, w, R1, fn, site, schema, overrides):
+  H.require(w, "useractions.UserActions._prepare_formula_renames",
+            "useractions.UserActions._do_doc_action")
+  run = H.Guarded(run, site.view, keep=KEEP)
   cfg = fn.cfg
   q = fn.qualname
   emit_nodes = {e[0] for e in site.emits}
@@ -506,6 +511,7 @@ def r3_positions(run, w):
                 "name was found in; producer and consumer agree on the tuple layout", floor=8)
   fn = H.xfn(w, "useractions.UserActions._prepare_formula_renames", keep=KEEP)
   v = H.View(fn)
+  run = H.Guarded(run, v, keep=KEEP)
   q = fn.qualname
   ps = fn.fi.params()
   ren = ps[1]
@@ -549,6 +555,9 @@ def r3_positions(run, w):
   rec_t = None
   tv = v.x(pa["full_text"])
   ok = False
+  if not (isinstance(tv, ast.Attribute) and isinstance(tv.value, ast.Call) and
+          endswith(dotted(tv.value.func), "get_column_rec")):
+    raise AnalysisError("%s: cannot tell which record's text is patched: %s" % (q, short(tv)))
   if isinstance(tv, ast.Attribute) and tv.attr == "formula":
     rd = tv.value
     if isinstance(rd, ast.Call) and endswith(dotted(rd.func), "get_column_rec"):
@@ -576,10 +585,10 @@ def r3_positions(run, w):
   rets = [s for s in walk_no_nested(fn.node) if isinstance(s, ast.Return)]
   ok = False
   if len(rets) == 1 and mapvar is not None:
-    try:
-      rc = v.collection(rets[0].value)
-    except AnalysisError:
-      rc = None
+    rc = v.collection(rets[0].value)
+    if rc is None:
+      raise AnalysisError("%s: the returned mapping is not built by one pass over the collected "
+                          "patches: %s" % (q, short(rets[0].value)))
     if rc is not None and rc.kind == "dict" and not rc.conds:
       it = v.alias_root(rc.iter, at=v.point_of(rc.node) if rc.loop is None else
                         v.loop_head(rc.loop))
@@ -620,6 +629,7 @@ def _producer(run, R3, w):
     raise AnalysisError("codebuilder.parse_grist_names: %d functions report (owner, start, table, "
                         "column) tuples (one expected)" % len(found))
   mk, mv, e, at = found[0]
+  run = H.Guarded(run, mv, keep=KEEP)
   params = set(mk.fi.params())
   is_param = lambda x: isinstance(mv.res(x, at=at), ast.Name) and \
       mv.res(x, at=at).id in params and \
@@ -723,8 +733,10 @@ def r4_unindent(run, w):
     fields = [e.value for e in node.args[1].elts if isinstance(e, ast.Constant)]
   if fields != ["start", "end", "old_text", "new_text"]:
     raise AnalysisError("textbuilder.Patch fields changed: %s" % (fields,))
+  H.require(w, "codebuilder._multiline_string_nodes", "codebuilder._do_make_formula_body")
   fn = H.xfn(w, "codebuilder.make_formula_body", keep=KEEP)
   v = H.View(fn)
+  run = H.Guarded(run, v, keep=KEEP)
   q = fn.qualname
   if "indent" not in fn.fi.params():
     raise AnalysisError("%s: parameter `indent` not found" % q)
